@@ -702,6 +702,25 @@ func runRecvWS(in recvIn) Sx {
 		}
 		time.Sleep(300 * time.Microsecond)
 	}
+	// the answers travel back asynchronously: wait until the server has one per <r/>
+	wantA := 0
+	for _, it := range in.Items {
+		if it.T == "bad" {
+			break
+		}
+		if it.T == "r" {
+			wantA++
+		}
+	}
+	for time.Now().Before(deadline) {
+		smu.Lock()
+		na := len(answers)
+		smu.Unlock()
+		if na >= wantA {
+			break
+		}
+		time.Sleep(300 * time.Microsecond)
+	}
 	time.Sleep(2 * time.Millisecond)
 	closed := make(chan struct{})
 	go func() { tr.Close(); close(closed) }()
